@@ -652,6 +652,15 @@ impl Node {
         }
         debug!("Payment is valid for record {pretty_key}");
 
+        // the quotes we issued must be for the address that is being stored
+        let quoted_name = address.as_xorname();
+        for quote in payment.quotes_by_peer(&self_peer_id) {
+            if Some(quote.content) != quoted_name {
+                warn!("Payment quote is not for record {pretty_key}");
+                return Err(Error::InvalidQuoteContent);
+            }
+        }
+
         // verify quote expiration
         if payment.has_expired() {
             warn!("Payment quote has expired for record {pretty_key}");
